@@ -151,6 +151,33 @@ func VerifC01_SetTimeConfigured() {
 	VerifC01_SetTime()
 }
 
+// the same for a controller configured with its own time zone (any two-interval zone, the process zone is UTC):
+// the request still carries the wall clock fields of the argument
+func VerifC01_SetTimeControllerZone() {
+	d, u := c01Driver()
+	id := nondetSerial("id")
+	dg := nondetBytes("dt.digits", 14) // YYYYMMDDHHmmss
+	for i := 0; i < 14; i++ {
+		verifAssume(dg[i] <= 9)
+	}
+	y := int(dg[0])*1000 + int(dg[1])*100 + int(dg[2])*10 + int(dg[3])
+	mo := int(dg[4])*10 + int(dg[5])
+	dd := int(dg[6])*10 + int(dg[7])
+	h := int(dg[8])*10 + int(dg[9])
+	mi := int(dg[10])*10 + int(dg[11])
+	s := int(dg[12])*10 + int(dg[13])
+	verifAssume(y >= 2 && verifValidDate(y, mo, dd) && h <= 23 && mi <= 59 && s <= 59)
+	loc := verifControllerZoneAt(y, mo, dd)
+	t := time.Date(y, time.Month(mo), dd, h, mi, s, 0, time.Local)
+	u.devices[id] = Device{Name: "alpha", DeviceID: id, Address: types.ControllerAddrFrom(netip.AddrFrom4([4]byte{192, 168, 1, 100}), 60000), Protocol: "udp", TimeZone: loc}
+	u.SetTime(id, t)
+	want := specReq(0x30, id)
+	for i := 0; i < 7; i++ {
+		want[8+i] = dg[2*i]<<4 | dg[2*i+1]
+	}
+	c01Check(d, want, "SetTime (controller zone)")
+}
+
 func VerifC01_GetDoorControlState() {
 	d, u := c01Driver()
 	id := nondetSerial("id")
